@@ -23,6 +23,7 @@ import (
 	"os"
 	"path/filepath"
 	"sort"
+	"strconv"
 	"strings"
 )
 
@@ -332,6 +333,70 @@ func analyseResourceClose(file string) string {
 	return "RUnknown"
 }
 
+// analyseZipExtensions: the elements of `ZipFileExtensions = []string{...}` with identifiers resolved through the
+// string constants of the same file.  Anything else is an error.
+func analyseZipExtensions(file string) []string {
+	af, err := parser.ParseFile(fset, file, nil, parser.SkipObjectResolution)
+	if err != nil {
+		fmt.Fprintln(os.Stderr, "guards2coq:", err)
+		os.Exit(1)
+	}
+	consts := map[string]string{}
+	var out []string
+	found := false
+	for _, d := range af.Decls {
+		gd, ok := d.(*ast.GenDecl)
+		if !ok {
+			continue
+		}
+		for _, sp := range gd.Specs {
+			vs, ok := sp.(*ast.ValueSpec)
+			if !ok {
+				continue
+			}
+			for i, n := range vs.Names {
+				if i >= len(vs.Values) {
+					continue
+				}
+				if lit, ok := vs.Values[i].(*ast.BasicLit); ok && lit.Kind == token.STRING && gd.Tok == token.CONST {
+					if v, err := strconv.Unquote(lit.Value); err == nil {
+						consts[n.Name] = v
+					}
+				}
+				if n.Name == "ZipFileExtensions" {
+					cl, ok := vs.Values[i].(*ast.CompositeLit)
+					if !ok {
+						die(vs.Pos(), "ZipFileExtensions is not a composite literal")
+					}
+					found = true
+					for _, e := range cl.Elts {
+						switch v := e.(type) {
+						case *ast.Ident:
+							c, ok := consts[v.Name]
+							if !ok {
+								die(v.Pos(), "ZipFileExtensions element %s is not a string constant of zip.go", v.Name)
+							}
+							out = append(out, c)
+						case *ast.BasicLit:
+							c, err := strconv.Unquote(v.Value)
+							if err != nil {
+								die(v.Pos(), "ZipFileExtensions element")
+							}
+							out = append(out, c)
+						default:
+							die(e.Pos(), "ZipFileExtensions element of unknown shape")
+						}
+					}
+				}
+			}
+		}
+	}
+	if !found {
+		die(token.NoPos, "ZipFileExtensions not found in zip.go")
+	}
+	return out
+}
+
 func main() {
 	repo := os.Getenv("VERIF_REPO")
 	if repo == "" {
@@ -400,10 +465,11 @@ func main() {
 	sort.Slice(table, func(i, j int) bool { return table[i].name < table[j].name })
 	vfsCloseShape := analyseVFSClose(files)
 	resCloseShape := analyseResourceClose(filepath.Join(repo, "utils", "resource", "resource.go"))
+	zipExts := analyseZipExtensions(filepath.Join(dir, "zip.go"))
 	var b strings.Builder
 	b.WriteString("(* GENERATED by translator-c07/cmd/guards2coq from utils/filesystem/*.go — do not edit.\n")
 	b.WriteString("   One abstract statement list per method of *VFS (see GuardTypes.v). *)\n")
-	b.WriteString("From Coq Require Import List String.\nImport ListNotations.\nFrom GU Require Import C07.GuardTypes.\nLocal Open Scope string_scope.\n\n")
+	b.WriteString("From Coq Require Import List String ZArith.\nImport ListNotations.\nFrom GU Require Import C07.GuardTypes.\nLocal Open Scope string_scope.\n\n")
 	b.WriteString("Definition methods : list meth := [\n")
 	for i, e := range table {
 		sep := ";"
@@ -421,6 +487,20 @@ func main() {
 	fmt.Fprintf(&b, "Definition vfs_close_shape : vshape := %s.\n", vfsCloseShape)
 	b.WriteString("(* resource.go closeableResource.Close: RCloseThenFlag = every return before `c.closed = true` returns the non-nil\n   error of the underlying Close, and the flag assignment precedes the final `return nil` *)\n")
 	fmt.Fprintf(&b, "Definition resource_close_shape : rshape := %s.\n", resCloseShape)
+	b.WriteString("(* zip.go ZipFileExtensions (string constants resolved), as byte lists, in source order *)\n")
+	b.WriteString("Definition zip_extensions_gen : list (list Z) := [\n")
+	for i, e := range zipExts {
+		bs := make([]string, len(e))
+		for j := 0; j < len(e); j++ {
+			bs[j] = fmt.Sprint(int(e[j]))
+		}
+		sep := ";"
+		if i == len(zipExts)-1 {
+			sep = ""
+		}
+		fmt.Fprintf(&b, "  [%s]%%Z%s (* %s *)\n", strings.Join(bs, "; "), sep, e)
+	}
+	b.WriteString("].\n")
 	content := b.String()
 	if old, err := os.ReadFile(outFile); err == nil && string(old) == content {
 		return
